@@ -6,6 +6,7 @@ import (
 	"bytes"
 	"encoding/json"
 	"fmt"
+	"github.com/ochinchina/sipproxy/vrt/vnet"
 	"strconv"
 	"strings"
 )
@@ -124,6 +125,7 @@ type c01In struct {
 	clname                   string
 	body                     []byte
 	cfg                      RCfg
+	fault                    string // partial-write-on-cached-connection: the proxy's cached TCP connection to the next hop takes 150 bytes of the next write, then breaks
 }
 
 func c01Build(in c01In) *WMsg {
@@ -209,6 +211,30 @@ func c01RunIn(w *RelayWorld, in c01In, seq int) (string, string, bool) {
 	if in.arrival == "udp" && len(raw) > 65000 {
 		return "", "", false
 	}
+	if in.fault != "" {
+		// an earlier request along the same path makes the proxy connect to the next hop ...
+		pre := m.Clone()
+		for i := range pre.Hdrs {
+			switch canonName(pre.Hdrs[i].Name) {
+			case "call-id":
+				pre.Hdrs[i].Value = "prelude-" + pre.Hdrs[i].Value
+			case "via":
+				pre.Hdrs[i].Value = strings.Replace(pre.Hdrs[i].Value, "z9hG4bKua", "z9hG4bKprelude", 1)
+			}
+		}
+		if in.arrival == "tcp" {
+			w.SendTCP(w.Client("c1", "127.0.0.9", "127.0.0.1:5062"), pre.Render())
+		} else {
+			w.SendUDP("127.0.0.9:5060", "127.0.0.1:5060", pre.Render())
+		}
+		w.Observe()
+		// ... and that connection will take only the first 150 bytes of the next write
+		for _, c := range vnet.Conns() {
+			if c.Dialled && !c.IsDriver() && !c.IsClosed() {
+				c.PartialFail = 150
+			}
+		}
+	}
 	w.Observe()
 	if in.arrival == "tcp" {
 		w.SendTCP(w.Client("c1", "127.0.0.9", "127.0.0.1:5062"), raw)
@@ -220,12 +246,27 @@ func c01RunIn(w *RelayWorld, in c01In, seq int) (string, string, bool) {
 		w.SendUDP(from, "127.0.0.1:5060", raw)
 	}
 	obs := w.Observe()
+	if in.fault != "" {
+		// what the environment itself cut short is not an emission of the proxy
+		var whole []vnet.Packet
+		for _, p := range obs.Pkts {
+			if !p.Partial {
+				whole = append(whole, p)
+			}
+		}
+		obs.Pkts = whole
+	}
 	desc := func(what string) string {
 		o := "nothing"
 		if len(obs.Pkts) > 0 {
 			o = short(obs.Pkts[0].Data)
 		}
-		return fmt.Sprintf("%s\nreceived (%s, path %s): %s\nemitted (%s): %s", what, in.arrival, in.path, short(raw), obs.Summary(), o)
+		if in.fault != "" {
+			for _, p := range obs.Pkts {
+				o += fmt.Sprintf("\n  [%s conn#%d -> %s, %d bytes] %s", p.Proto, p.Conn, p.To, len(p.Data), clip(string(p.Data), 60))
+			}
+		}
+		return fmt.Sprintf("%s\nreceived (%s, path %s%s): %s\nemitted (%s): %s", what, in.arrival, in.path, map[bool]string{true: ", fault " + in.fault, false: ""}[in.fault != ""], short(raw), obs.Summary(), o)
 	}
 	if vd := w.S.Verdict(); vd != "" {
 		return "health", desc(vd), true
@@ -416,6 +457,7 @@ func init() {
 		{Name: "h1", Vals: []string{"absent", "pct", "empty", "contact-m", "bin", "substate", "expires"}, Quick: 4},
 		{Name: "body", Vals: []string{"empty", "text", "soup"}},
 		{Name: "parties", Vals: []string{"plain", "mixed-case", "decorated", "tel-urn", "addr-spec"}},
+		{Name: "fault", Vals: []string{"none", "partial-write-on-cached-connection"}},
 	}, Sample: 10000}
 	c01B.Valid = func(v []int) bool {
 		s := c01B
@@ -433,6 +475,10 @@ func init() {
 		if v[s.idx("parties")] != 0 && (v[s.idx("received")] != 0 || v[s.idx("mustrr")] != 0 || v[s.idx("keep")] != 0 || v[s.idx("ruri")] != 0) {
 			return false
 		}
+		// the environment fault needs a TCP next hop; crossed with arrival, configuration, header and body
+		if v[s.idx("fault")] != 0 && (s.Val(v, "departure") != "tcp" || (s.Val(v, "path") != "route" && s.Val(v, "path") != "static") || v[s.idx("ruri")] != 0 || v[s.idx("method")] != 0 || v[s.idx("parties")] != 0) {
+			return false
+		}
 		return true
 	}
 	c01B.Eval = func(v []int) (string, string, bool) { return c01Run(c01InB(v)) }
@@ -446,10 +492,13 @@ func init() {
 		in := c01In{path: s.Val(v, "path"), arrival: s.Val(v, "arrival"), departure: s.Val(v, "departure"), method: s.Val(v, "method"), status: st,
 			ruri: c01URIs[s.Val(v, "ruri")], extra: hs, clname: "Content-Length", body: c01Body(s.Val(v, "body")), cfg: c01Cfg(s.Val(v, "received"), s.Val(v, "mustrr"), s.Val(v, "keep")),
 			parties: s.Val(v, "parties")}
+		if v[s.idx("fault")] != 0 {
+			in.fault = s.Val(v, "fault")
+		}
 		return in
 	}
 	addCheck(&Check{ID: "C01", Level: "exploration",
-		Rule:   "two complete products on fresh simulated worlds: (A) content: all sequences of 0-2 (thorough 0-3) extension headers over an 18-shape alphabet (compact/odd-case/repeated names, empty value, %, quotes, separators, UTF-8, bytes >= 0x80, 16 KiB value) x position x 7 body classes (incl. NUL/CR/LF soup, SIP-like body, 4097 B, 60 KiB of all byte values) x Content-Length spelling x {request to backend, response, request by Route over TCP}; (B) paths: {backend, Route, static route, response by Via} x arrival UDP/TCP x departure UDP/TCP x received/must-record-route/keep-next-hop x 14 Request-URI forms x methods / status codes x header x body x 5 From/To shapes (mixed-case hosts, decorated URIs, tel/urn, addr-spec form; in-dialog so that dialog identifiers are computed); plus three requests pipelined on one TCP connection; the emission is read by the independent reader; second pass: all cases of one configuration class fed into ONE long-lived world; non-trivial = the message was relayed",
+		Rule:   "two complete products on fresh simulated worlds: (A) content: all sequences of 0-2 (thorough 0-3) extension headers over an 18-shape alphabet (compact/odd-case/repeated names, empty value, %, quotes, separators, UTF-8, bytes >= 0x80, 16 KiB value) x position x 7 body classes (incl. NUL/CR/LF soup, SIP-like body, 4097 B, 60 KiB of all byte values) x Content-Length spelling x {request to backend, response, request by Route over TCP}; (B) paths: {backend, Route, static route, response by Via} x arrival UDP/TCP x departure UDP/TCP x received/must-record-route/keep-next-hop x 14 Request-URI forms x methods / status codes x header x body x 5 From/To shapes (mixed-case hosts, decorated URIs, tel/urn, addr-spec form; in-dialog so that dialog identifiers are computed); plus three requests pipelined on one TCP connection; plus an environment fault on TCP departures (the proxy's cached connection to the next hop takes 150 bytes of the write, then breaks: what reaches the next hop on the fresh connection is the whole message); the emission is read by the independent reader; second pass: all cases of one configuration class fed into ONE long-lived world; non-trivial = the message was relayed",
 		Assume: []string{"well-formed messages of the stated domain (CRLF, single blanks, explicit Content-Length, no folding)"},
 		Run: func(c *Ctx) {
 			c01A.Run(c)
